@@ -705,3 +705,13 @@ Proof. vm_compute. repeat split; reflexivity. Qed.
 Example C06_ex_vm_S3_inserted_in_order :
   open_list (snd (vm_run s3_program 25)) [(3%N, 9); (4%N, 2)].
 Proof. apply chain_of_sound with (fuel := 5). vm_compute. reflexivity. Qed.
+
+(* S-2  foreach (k) in tb { foreach (v = k) in ta { log1(std.map(fn(){ return k }, ta)) } }: while std.map runs the
+   closure (object 3) its one upvalue (object 4) is open at slot 13, the VALUE variable k = 2 of the inner loop
+   (the outer loop's variables are in slots 2-8); at the end of the run it is closed
+   with that value *)
+Example C06_ex_vm_S2_captures_the_inner_variable :
+  let st := snd (vm_run s2_program 40) in
+  open_list st [(4%N, 13)] /\ closures_of (Vm.st_heap st) = [(3%N, [4%N])] /\ sraw_get st 13 = VInt 2 /\
+  upvalues_of (Vm.st_heap (snd (vm_run s2_program 2000))) = [(4%N, mkUp None (VInt 2) None)].
+Proof. split; [apply chain_of_sound with (fuel := 5)|]; vm_compute; repeat split; reflexivity. Qed.
